@@ -66,9 +66,13 @@ def run_case(args):
     if i % 6 == 1:
         # the step size given per revolution (overrides StepsPerTs, which stays at an unrelated value): the configured angle is
         # 2 pi over the number of steps per synchrotron period that implies; the period is closed at the nearest whole step
-        o["StepsPerRevolution"] = round(P["steps"] * P["fs"] / P["frev"], 9)
+        # (every other such case implies a number of steps per period that is not whole: 2 pi over *that* number is the angle per step)
+        o["StepsPerRevolution"] = round(P["steps"] * (r.choice([1.0137, 0.9911, 1.0045]) if (i // 6) % 2 == 0 else 1.0) * P["fs"] / P["frev"], 9)
         o["StepsPerTs"] = int(r.choice([2 * steps, max(20, steps // 3), 1000 if abs(steps - 1000) > 300 else 250]))
         P = physics.derive({k: v for k, v in o.items()})
+    if i % 4 == 2:
+        # records every few steps only, with a run length that is not a multiple of the cadence: the final record is as much "after k steps" as any
+        o["outstep"] = r.choice([7, 13, 30, 35])
     wd = os.path.join(sdir, "c%04d" % i)
     os.makedirs(wd, exist_ok=True)
     nblob = r.choice([1, 2])
@@ -139,7 +143,8 @@ def run_case(args):
             viol.append(("C03:prog:rotation:" + ("sinus" if sinus else "linear"), "recorded centre of charge deviates from the rotation by k*2pi/steps by more than the splitting error",
                          dict(step=int(k), q=q[rec], p=p[rec], bound=tol2, err=e2)))
             break
-    out.update(viol=viol, worst1=worst1, worst2=worst2, records=len(t), closed=(k == P["laststep"] and not viol), c0=c0, per_rev="StepsPerRevolution" in o)
+    out.update(viol=viol, worst1=worst1, worst2=worst2, records=len(t), closed=(k == P["laststep"] and not viol), c0=c0, per_rev="StepsPerRevolution" in o,
+               fractional=abs(P["steps"] - round(P["steps"])) > 1e-3, sparse=o.get("outstep", 1) != 1)
     shutil.rmtree(wd, ignore_errors=True)
     return out
 
@@ -166,10 +171,14 @@ def run(ctx):
             ctx.ev("program_periods_closed")
         if res.get("per_rev"):
             ctx.ev("program_runs_with_steps_per_revolution")
+        if res.get("fractional"):
+            ctx.ev("program_runs_with_a_fractional_number_of_steps_per_period")
+        if res.get("sparse"):
+            ctx.ev("program_runs_recorded_every_few_steps")
         kind = "sinus" if res["sinus"] else "linear"
         ctx.residual("prog.centroid_vs_matrix_product_over_tol." + kind, res["worst1"], 1.0)
         ctx.residual("prog.centroid_vs_rotation_over_bound." + kind, res["worst2"], 1.0)
         for key, what, det in res["viol"]:
             ctx.violation(key, what, dict(det, cmd=res["cmd"], options=res["opts"]))
         ctx.sample(dict(options=res["opts"], start_centroid=res["c0"], records=res["records"]))
-    ctx.min_events = {"steps_observed": 5000, "periods_closed": 40, "periods_closed_bunch>0": 10, "periods_of_1e5_steps_closed": 3, "program_runs": n // 2, "program_periods_closed": n // 3, "program_runs_with_steps_per_revolution": 2}
+    ctx.min_events = {"steps_observed": 5000, "periods_closed": 40, "periods_closed_bunch>0": 10, "periods_of_1e5_steps_closed": 3, "program_runs": n // 2, "program_periods_closed": n // 3, "program_runs_with_steps_per_revolution": 2, "program_runs_with_a_fractional_number_of_steps_per_period": 1, "program_runs_recorded_every_few_steps": 2}
